@@ -810,8 +810,11 @@ Proof.
   intros U0 Hc H. unfold ptoks. rewrite (norm_canonical e Hc). apply (C05_core d); assumption.
 Qed.
 
-(** evaluation of one case including the image predicate (bit 32: the implementation's tree,
-    together with the unconsumed tokens, does not satisfy [imgb]) *)
+(** evaluation of one case including the image predicate: bit 32 = the implementation's tree,
+    together with the unconsumed tokens, does not satisfy [imgb] although the token list passes the
+    syntactic fragment test; bit 64 = the token list fails the (conservative, purely syntactic)
+    fragment test [frag_ok], so [token_roundtrip] says nothing about it (counted, not an error) *)
 Definition c01_full (d : dialect) (op_text : N -> str) (ld : Lexer.dialect) (u : Lexer.uni)
   (e : expr) (text : str) (ptokens rest : list tok) : N :=
-  (c01_case d op_text ld u e text ptokens + (if imgb d e rest then 0 else 32))%N.
+  (c01_case d op_text ld u e text ptokens +
+   (if frag_ok d (yield e ++ rest) then (if imgb d e rest then 0 else 32) else 64))%N.
